@@ -127,10 +127,10 @@ theorem ctxBump_nickCheck (cfg : Cfg) (c : Nat) (n : Str) : CtxBump cfg (.nickCh
   simp only [execSection, nickCheckStep, bmp_conn, bmp_users]
   by_cases h1 : (x.conn c).authenticated = true
   · simp only [h1, ↓reduceIte]
-  · simp only [h1, ↓reduceIte]
+  · simp only [h1]
     by_cases h2 : Map.contains n x.w.users = true
     · simp only [h2, ↓reduceIte]; rfl
-    · simp only [h2, ↓reduceIte]; rfl
+    · simp only [h2]; rfl
 
 theorem ctxBump_authDecide (cfg : Cfg) (c : Nat) : CtxBump cfg (.authDecide c) := by
   intro i p x
@@ -155,7 +155,7 @@ theorem preludeStep_eq (cfg : Cfg) (c : Nat) (cmd : Command) (t : TCtx) :
   unfold preludeStep preludeConn
   by_cases h : (t.x.conn c).authenticated = true
   · simp only [h, ↓reduceIte]
-  · simp only [h, ↓reduceIte]
+  · simp only [h]
     cases cmd <;> try rfl
     rename_i sub _ _
     cases sub <;> rfl
@@ -165,7 +165,7 @@ theorem ctxBump_prelude (cfg : Cfg) (c : Nat) (cmd : Command) : CtxBump cfg (.pr
   simp only [execSection, preludeStep_eq, bmp_conn]
   by_cases h1 : (x.conn c).authenticated = true
   · simp only [h1, ↓reduceIte]
-  · simp only [h1, ↓reduceIte]
+  · simp only [h1]
     cases preludeConn cmd (x.conn c) with
     | none => rfl
     | some cn' => simp only [bmp_setConn]; exact decideStep_bmp cfg c _ i
